@@ -314,8 +314,30 @@ func ruleR091(c *Ctx) {
 				}
 				c.OK(key, call.Pos(), "backing is a slice owned by the caller of this helper; the caller is checked at its own site")
 			default:
-				// storage of an existing (immutable) list: sharing is fine as long as nobody writes (a)
-				c.OK(key, call.Pos(), "shares the storage of an existing list (%s); existing lists are never written in place (part a)", o.reason)
+				// storage of an existing (immutable) list: sharing is fine as long as nobody writes (a). The one
+				// in-place write is Append into spare capacity (b), so a list that shares storage must not see
+				// spare capacity that belongs to another list: a view has to limit its capacity (s[i:j:j]),
+				// as MovingWindow does; the result of append is owned by the new list (b trims the parent).
+				viaAppend := false
+				if as, i := definingAssign(info, fn, obj); as != nil && len(as.Lhs) == len(as.Rhs) {
+					if ac, ok := ast.Unparen(as.Rhs[i]).(*ast.CallExpr); ok {
+						if aid, ok := ast.Unparen(ac.Fun).(*ast.Ident); ok && aid.Name == "append" {
+							viaAppend = true
+						}
+					}
+				}
+				capped := false
+				if se, ok := arg.(*ast.SliceExpr); ok && se.Slice3 && se.Max != nil && se.High != nil && nodeStr(c.Fset, se.Max) == nodeStr(c.Fset, se.High) {
+					capped = true
+				}
+				switch {
+				case capped:
+					c.OK(key, call.Pos(), "a view of the storage of an existing list (%s) with its capacity limited to its length: an append on the view copies", o.reason)
+				case viaAppend:
+					c.OK(key, call.Pos(), "the result of append on the storage of an existing list; Append trims the capacity of the parent (part b)")
+				default:
+					c.Violation(key, call.Pos(), "the new list shares the storage of an existing list (%s) including its spare capacity: an append on one of the two lists writes into a slot the other one also appends to (or, for a prefix view, into elements of the existing list), so a list changes after it was created", o.reason)
+				}
 			}
 			return true
 		})
